@@ -21,7 +21,10 @@ Alphabet == <<"select", "name", "size", ",", "from", ".", "where", "=", ">", "an
 Base == << <<"select", "name", ",", "size", "from", ".", "where", "size", ">", "1", "and", "name", "like", "'%a%'", "order", "by", "2", "desc", "limit", "3", "into", "json">>,
            <<"name", "from", ".", "where", "(", "size", ">", "1", "or", "is_dir", ")", "and", "not", "name", "=", "'x'">>,
            <<"select", "count(*)", ",", "max(size)", "from", ".", "group", "by", "ext">>,
-           <<"select", "lower(name)", ",", "size", "+", "1", "from", ".", "where", "size", "between", "1", "and", "9", "order", "by", "name">> >>
+           <<"select", "lower(name)", ",", "size", "+", "1", "from", ".", "where", "size", "between", "1", "and", "9", "order", "by", "name">>,
+           \* (function brackets as tokens of their own, in every clause that takes expressions)
+           <<"select", "name", ",", "lower(", "name", ")", "from", ".", "where", "length(", "name", ")", ">", "1",
+             "group", "by", "lower(", "name", ")", "order", "by", "upper(", "name", ")", "limit", "2">> >>
 
 (* the listed malformations: [q, why] *)
 Rejects == <<
@@ -66,7 +69,9 @@ FuncCalls == << "substr(name, 6, 3)", "substr(name, 40)", "substr(name, -30, 2)"
                 "coalesce()", "to_base64()", "from_base64('###')", "from_base64('Zg')", "bin(-1)", "hex(99999999999999999999)", "oct(1.5)",
                 "abs()", "abs(x)", "power()", "power(2)", "power(2, 99999)", "power(0, -1)", "sqrt(-1)", "sqrt()", "log(0)", "log(-1)",
                 "log(8, 0)", "log(8, x)", "ln(0)", "exp(99999)", "least()", "greatest(x, y)", "format_time(-1)", "format_time()",
-                "format_time(99999999999999999999)", "format_size(x)", "format_size(1, x)", "format_size(1, '%.99')", "format_size(size, '%.2 zz')",
+                "format_time(99999999999999999999)", "format_size(x)", "format_size(1, x)", "format_size(1, '%.99')", "format_size(size, '%.2 zz')", "format_size(size, '%.99999999999 k')",
+                "format_size(size, '%.4294967296')", "format_size(99999999999999999999, '%.1')", "substr(name, 1, 99999999999999999999)", "rand(99999999999999999999)",
+                "power(99999999999999999999, 2)", "year(99999999999999999999)", "lower(name", "concat(name, 'a'", "substr(name, 1,",
                 "year()", "year(0)", "month(size)", "day('31')", "dow('x y z')", "year('2017-02-30')", "day('0000-00-00')",
                 "rand(0)", "rand(5, 1)", "rand(x)", "rand(1, x)", "contains()", "contains(name)", "has_xattr()", "xattr()", "has_cap()",
                 "curdate(1)", "current_uid(x)", "min()", "max(name)", "avg(name)", "sum(name)", "count()", "var_pop(name)", "stddev(mode)" >>
